@@ -352,6 +352,12 @@ def raw_specs():
     out.append(("array-alias-recursion", wrap({
         "Forest": {"type": "array", "items": R("Forest")},
         "Holder": {"type": "object", "properties": {"f": R("Forest")}}})))
+    # schema names that are not already Rust type names (the cycle marking is keyed by SCHEMA name)
+    out.append(("non-pascal-names", wrap({
+        "tree_node": {"type": "object", "properties": {"label": {"type": "string"}, "next": R("tree_node"), "kids": {"type": "array", "items": R("tree_node")}}},
+        "comment": {"type": "object", "properties": {"text": {"type": "string"}, "thread": R("comment-thread")}},
+        "comment-thread": {"type": "object", "properties": {"head": R("comment"), "more": {"oneOf": [R("comment-thread"), {"type": "null"}]}}},
+        "folderItem": {"type": "object", "properties": {"parent": R("folderItem")}}})))
     # undiscriminated named union, non-recursive member first
     out.append(("plain-union-tree", wrap({
         "Json": {"oneOf": [{"type": "string"}, {"type": "number"}, R("JsonArr"), R("JsonObj")]},
@@ -427,8 +433,9 @@ def main(tier, seed, replay=None):
         if cyc:
             viol.append((name, g, spec, f"{name}: emitted types contain themselves by value (infinite size): {' -> '.join(cyc)}"))
             continue
-        if g is None:
-            # fixtures: type names go through the naming pipeline; only the direct acyclicity observation applies
+        if g is None or (isinstance(g, dict) and g.get("raw") == "non-pascal-names"):
+            # fixtures / renamed schemas: type names go through the naming pipeline; only the direct acyclicity
+            # observation (and rustc in the arena) applies
             continue
         named = {nm: k for k, nm in enumerate(names)}
         clo = closure(deps)
@@ -730,6 +737,9 @@ def arena_part(res, tier, rng, specs, results, dumps, viol, d):
         unsat = unsatisfiable(spec)
         div = default_diverges(spec)
         names = sorted(spec["components"]["schemas"])
+        if isinstance(g, dict) and g.get("raw") == "non-pascal-names":
+            # only the compile (rustc size check) observation: the probes address types by schema name
+            names = []
         plan[i] = {"types": names, "unsat": unsat, "div": div}
 
     def body(cases):
